@@ -293,6 +293,24 @@ fn lines(c: &Cfg, max_chain: usize, thorough: bool) -> Vec<Line> {
             }
         }
     }
+    // a short flag subcommand that is not the first flag of its group (`-pAq`: root flag p, then
+    // subcommand sa, then sa's own q), also nested (`-qApBq`)
+    if matches!(c.naming, Naming::ShortFlag | Naming::Both | Naming::LongFlagAliasOnly) {
+        let mk = |toks: &[&str], chain: &[&str], locals: Vec<(bool, bool)>, desc: &str| Line {
+            argv: toks.iter().map(|t| t.as_bytes().to_vec()).collect(),
+            chain: chain.iter().map(|s| s.to_string()).collect(),
+            globals: locals.iter().map(|_| vec![]).collect(),
+            locals,
+            ext: None,
+            desc: desc.to_string(),
+        };
+        out.push(mk(&["-pA"], &["sa"], vec![(true, false), (false, false)], "flag then subcommand flag"));
+        out.push(mk(&["-pAq"], &["sa"], vec![(true, false), (false, true)], "flag, subcommand flag, sub-level flag"));
+        out.push(mk(&["-qpAp"], &["sa"], vec![(true, true), (true, false)], "two flags, subcommand flag, sub-level flag"));
+        out.push(mk(&["-A", "-pBq"], &["sa", "sb"], vec![(false, false), (true, false), (false, true)], "second-level group with leading flag"));
+        out.push(mk(&["-qApBq"], &["sa", "sb"], vec![(false, true), (true, false), (false, true)], "one group through two levels"));
+        out.push(mk(&["-pAq", "-p"], &["sa"], vec![(true, false), (true, true)], "group then a later group"));
+    }
     // sibling dispatch
     for (tok, _) in c.spellings("sx", 'X', "sx-flag") {
         out.push(Line { argv: vec![tok.into_bytes()], chain: vec!["sx".into()], locals: vec![(false, false), (false, false)], globals: vec![vec![], vec![]], ext: None, desc: "sibling".into() });
